@@ -4,6 +4,9 @@ every loader in the repository's tests does (nested Savables are saved with defa
 from plumpy import loaders
 
 
+KNOWN_PREFIXES = ('tag!', 'other!')
+
+
 class TagLoader(loaders.DefaultObjectLoader):
     PREFIX = 'tag!'
     loads = 0
@@ -19,6 +22,12 @@ class TagLoader(loaders.DefaultObjectLoader):
         if identifier.startswith(self.PREFIX):
             type(self).owned_loads += 1
             identifier = identifier[len(self.PREFIX) :]
+        else:
+            # identifiers written by another harness loader (nested Savables are identified by the global loader)
+            for prefix in KNOWN_PREFIXES:
+                if identifier.startswith(prefix):
+                    identifier = identifier[len(prefix) :]
+                    break
         return super().load_object(identifier)
 
     @classmethod
